@@ -66,16 +66,19 @@ type RWMutex struct {
 	mu       sync.RWMutex
 	lwriter  bool
 	lreaders int
-	// a writer waiting does NOT block new readers in this model (Go's RWMutex does, to avoid writer
-	// starvation); recursive read locking — which gobgp relies on not deadlocking — therefore never
-	// deadlocks here. Writer-preference deadlocks are outside this model.
+	// writers blocked in Lock: as in Go's RWMutex ("a blocked Lock call excludes new readers from
+	// acquiring the lock") they hold back new readers, so a read lock taken recursively while a writer
+	// waits is a deadlock here as it is in the real thing.
+	lwaiters int
 }
 
 func (m *RWMutex) Lock() {
 	if s := inThread(); s != nil {
 		s.PointObj("rw.lock", uintptr(unsafe.Pointer(m)), true)
 		if m.lwriter || m.lreaders > 0 {
+			m.lwaiters++
 			s.Block("rw.lock", func() bool { return !m.lwriter && m.lreaders == 0 })
+			m.lwaiters--
 		}
 		m.lwriter = true
 		return
@@ -94,8 +97,8 @@ func (m *RWMutex) Unlock() {
 func (m *RWMutex) RLock() {
 	if s := inThread(); s != nil {
 		s.PointObj("rw.rlock", uintptr(unsafe.Pointer(m)), false)
-		if m.lwriter {
-			s.Block("rw.rlock", func() bool { return !m.lwriter })
+		if m.lwriter || m.lwaiters > 0 {
+			s.Block("rw.rlock", func() bool { return !m.lwriter && m.lwaiters == 0 })
 		}
 		m.lreaders++
 		return
@@ -126,7 +129,7 @@ func (m *RWMutex) TryLock() bool {
 func (m *RWMutex) TryRLock() bool {
 	if s := inThread(); s != nil {
 		s.PointObj("rw.tryrlock", uintptr(unsafe.Pointer(m)), false)
-		if m.lwriter {
+		if m.lwriter || m.lwaiters > 0 {
 			return false
 		}
 		m.lreaders++
